@@ -425,7 +425,9 @@ pub fn s1_pushw<const N: usize, const W: usize, const SPARE: usize>() {
         }
         let p0 = s.as_ptr() as usize;
         let cap0 = s.capacity();
-        vassert!(cap0 == N + W + SPARE, "NEVER: [C18] with_capacity_in did not reserve exactly the requested capacity");
+        // (a constructor that rounds the capacity up is fine; in this harness it would not find the room
+        // and the path ends in the cut allocator stub: inconclusive, not a violation)
+        vassert!(cap0 >= N + W + SPARE, "NEVER: [C18] with_capacity_in reserved less than the requested capacity");
         let ch: char = match W {
             1 => {
                 let a: u8 = kani::any();
